@@ -190,3 +190,38 @@ package generic
 //@   ensures[C12] result.line == L(seq(sc(scanner).content), old(cur(scanner))) && result.column == C(seq(sc(scanner).content), old(cur(scanner)))
 //@   assigns sc(scanner).position, sc(scanner).line, sc(scanner).column
 //@   nopanic
+
+// ---- symbol state (C16, C04, C12) ---------------------------------------------------------------------
+// Ownership of the cached text: a node's cached ancestry never shares its backing array with its parent's,
+// so reading one symbol cannot change the text reported for another ("registering or reading other symbols
+// never alters the text reported for existing ones").
+//@ func (c *SymbolNode) Ancestry
+//@   requires c != nil
+//@   ensures[C16,C05] result == c.ancestry && c.parent == old(c.parent) && c.character == old(c.character)
+//@   ensures[C16,C05] old(len(c.ancestry)) > 0 ==> result == old(c.ancestry)
+//@   ensures[C16,C05] old(len(c.ancestry)) == 0 && c.parent != nil && c.parent != c && len(result) > 0 && len(c.parent.ancestry) > 0 ==>
+//@       arr(result) != arr(c.parent.ancestry)
+//@   assigns any(SymbolNode).ancestry
+//@   nopanic
+//@   terminates assumed the parent chain of a symbol node is finite and acyclic (nodes are only ever linked under existing nodes)
+//
+// The trie operations below are NOT proved: their contract is the tokenizer-state contract, assumed (trusted)
+// and backed only by the bounded check of the symbol tables (see DESIGN.md, C16).
+//@ func (c *SymbolRootNode) NextToken
+//@   trusted
+//@   requires c != nil && isScanner(scanner) && sc(scanner).position + 1 < len(sc(scanner).content)
+//@   requires forall i int :: 0 <= i && i < len(sc(scanner).content) ==> scalar(sc(scanner).content[i])
+//@   ensures[C04,C12] result != nil && isScanner(scanner) && sc(scanner).content == old(sc(scanner).content)
+//@   ensures[C04] spans(result.value, scanner, old(cur(scanner)), cur(scanner))
+//@   ensures[C12] result.line == L(seq(sc(scanner).content), old(cur(scanner))) && result.column == C(seq(sc(scanner).content), old(cur(scanner)))
+//@   assigns sc(scanner).position, sc(scanner).line, sc(scanner).column
+//@   nopanic
+//@ func (c *GenericSymbolState) NextToken
+//@   requires c.symbols != nil
+//@   requires c != nil && isScanner(scanner) && sc(scanner).position + 1 < len(sc(scanner).content)
+//@   requires forall i int :: 0 <= i && i < len(sc(scanner).content) ==> scalar(sc(scanner).content[i])
+//@   ensures[C04,C12] result != nil && isScanner(scanner) && sc(scanner).content == old(sc(scanner).content)
+//@   ensures[C04] spans(result.value, scanner, old(cur(scanner)), cur(scanner))
+//@   ensures[C12] result.line == L(seq(sc(scanner).content), old(cur(scanner))) && result.column == C(seq(sc(scanner).content), old(cur(scanner)))
+//@   assigns sc(scanner).position, sc(scanner).line, sc(scanner).column
+//@   nopanic
